@@ -542,6 +542,9 @@ gotheaders(struct http_cookie * H, uint8_t * buf, size_t buflen)
 		H->res_head = NULL;
 		H->res.headers = NULL;
 
+		/* The next header block starts from the beginning. */
+		H->hepos = 0;
+
 		/* Go back to reading headers. */
 		return (callback_read_header(H, 0));
 	}
